@@ -457,15 +457,18 @@ def stepInBody (token : Token) : M ProcessResult := do
     else if tag.isStart ["area", "br", "embed", "img", "keygen", "wbr"] then inBodyVoid tag
     else if tag.isStart ["input"] then
       if ← contextIsSelect "rules.rs:823" then
+        -- fragment case with a `select` context element: parse error, ignore the token
         let _ ← unexpected
-      if ← inScopeNamed defaultScope "select" then
-        let _ ← unexpected
-        let _ ← popUntilNamed "select"
-      let hidden := isTypeHidden tag
-      reconstructActiveFormattingElements
-      let _ ← insertAndPopElementFor tag
-      if !hidden then setFramesetOk false
-      pure .doneAckSelfClosing
+        pure .done
+      else
+        if ← inScopeNamed defaultScope "select" then
+          let _ ← unexpected
+          let _ ← popUntilNamed "select"
+        let hidden := isTypeHidden tag
+        reconstructActiveFormattingElements
+        let _ ← insertAndPopElementFor tag
+        if !hidden then setFramesetOk false
+        pure .doneAckSelfClosing
     else if tag.isStart ["param", "source", "track"] then
       let _ ← insertAndPopElementFor tag
       pure .doneAckSelfClosing
@@ -804,6 +807,27 @@ def stepInTableText (token : Token) : M ProcessResult := do
       set { s with origMode := none }
       pure (.reprocess m token)
 
+/-- `flush_pending_table_text` (rules.rs): the "anything else" steps of "in table text" without the
+reprocessing; returns the original insertion mode (used by `process_token` for a DOCTYPE token) -/
+def flushPendingTableText : M Mode := do
+  let pending := (← getS).pendingTableText
+  modS fun s => { s with pendingTableText := [] }
+  let containsNonspace := pending.any (fun (split, text) =>
+    match split with
+    | .whitespace => false
+    | .notWhitespace => true
+    | .notSplit => anyNotWhitespace text)
+  if containsNonspace then
+    parseError "Non-space table text"
+    flushPendingFoster pending
+  else flushPendingPlain pending
+  let s ← getS
+  match s.origMode with
+  | none => panicAt "unwrap-none" "rules.rs:1172" "orig_mode.take().unwrap()"
+  | some m =>
+    set { s with origMode := none }
+    pure m
+
 /-- rules.rs:1178 -/
 def stepInCaption (token : Token) : M ProcessResult := do
   match token with
@@ -1117,9 +1141,19 @@ def unexpectedStartTagInForeignContent (tag : Tag) : M ProcessResult := do
   step (← getS).mode (.tag tag)
 
 /-- the end-tag loop of `step_foreign` (rules.rs:1660).  First argument: `stack_idx`; it is
-decremented on every iteration, hence structural recursion. -/
+decremented on every iteration, hence structural recursion.  The node at `stack_idx` is examined
+first ("an HTML element below the first one: hand over to the insertion mode"), the bottom-of-stack
+test comes second. -/
 def foreignEndTagLoop (tag : Tag) : Nat → Bool → M ProcessResult
-  | 0, _ => pure .done
+  | 0, first => do
+    let node ← match (← getS).openElems[0]? with
+      | some n => pure n
+      | none => panicAt "index-oob" "rules.rs:1669" "open_elems[stack_idx]"
+    let nodeName ← elemName node
+    let html := nodeName.ns == nsHtml
+    if !first && html then
+      step (← getS).mode (.tag tag)
+    else pure .done
   | stackIdx + 1, first => do
     let node ← match (← getS).openElems[stackIdx + 1]? with
       | some n => pure n
